@@ -475,11 +475,13 @@ class KafkaCodec(object):
         """
         Encode an ApiVersionsRequest. Format::
 
-            ApiVersionsRequest => [ApiVersionRequest]
-                ApiVersionRequest => ApiKey
+            ApiVersionsRequest (Version: 0) =>
+
+        The version 0 request has an empty body; the requested version goes
+        in the request header.
         """
-        return cls._encode_message_header(client_id, correlation_id, api_version_request.api_key) + struct.pack(
-            ">i", api_version_request.api_version
+        return cls._encode_message_header(
+            client_id, correlation_id, api_version_request.api_key, api_version=api_version_request.api_version
         )
 
     @classmethod
